@@ -8,7 +8,9 @@ REPO = os.environ.get("VERIF_REPO", "/repo")
 LEAN = os.path.join(VERIF, "lean")
 CACHE = os.path.join(VERIF, ".cache")
 REPLAYS = os.path.join(VERIF, "replays")
-EVIDENCE = os.path.join(VERIF, "evidence")
+# a run against another tree (VERIF_REPO, mutation trials) must not overwrite the committed evidence
+EVIDENCE = os.environ.get("VERIF_EVIDENCE_DIR") or (os.path.join(VERIF, "evidence") if "VERIF_REPO" not in os.environ
+                                                      else os.path.join(CACHE, "evidence_other_tree"))
 GUARD = "CPPUTEST_VERIF_HOOKS"
 NCPU = os.cpu_count() or 4
 
